@@ -12,9 +12,11 @@ CLAIMED = {
         "SepFree guard with counter-example theorems for the guard, session-id resolution; the literal model of the flat session db (set/delete/"
         "delete_sub_tree/revoke_tree/create/exchange/remove/flush) — for which key uniqueness over all histories and the locality of creation are proved — is tied to the code by correspondence on op histories with hostile identifiers, "
         "and a tree-consistency/locality oracle runs after every step.",
-   note="Proved for the tree: one node per path in every reachable state (session_tree_keys_unique, over all operations), a created grant is "
-        "stored as created and creation touches its own branch only (created_grant_is_stored, creation_is_local). Reachability from the parent "
-        "and the exact extent of a removal are checked by oracle + correspondence on histories, not proved; Fernet idealised.",
+   note="Proved for the tree (literal model, every identifier string): one node per path in every reachable state (session_tree_keys_unique, "
+        "over all operations); a created grant is stored as created, linked into its client and user node, and creation touches its own branch only "
+        "(created_grant_is_stored, created_grant_is_linked, creation_is_local); a removed session is gone and nothing outside its branch changes "
+        "(removed_grant_is_gone, removal_is_local). Revocation cascades in the tree and deletion at user / client level are checked by oracle + "
+        "correspondence on histories, not proved; Fernet idealised.",
    technique="Lean 4 proof (induction on strings) + model/implementation correspondence on operation histories", ref="6 C14"),
  "C17": dict(
    text="Lean theorems for every value/type/timestamp string and every crypto instance satisfying functional correctness (Sound): round trip in "
